@@ -16,6 +16,8 @@ import B2Z.Model.Checks
 import B2Z.Model.Cli
 import B2Z.Model.SchemaJson
 import B2Z.Model.Rows
+import B2Z.Model.ChunkFile
+import B2Z.Model.Split
 /-! JSON line-protocol driver: one request object per line in, one JSON value per line out.
     Only `Model.*` (core Lean) is imported, so this also builds as a native executable. -/
 open Lean
@@ -456,6 +458,18 @@ def handle (j : Json) : Except String Json := do
       | .ok x => (intList x).map some
       | .error _ => pure none
     pure (optJson intsJson (Schema.intRow dt w v))
+  | "chunk.read" =>
+    -- framing check of read_chunk; the decompressor is replaced by one that accepts everything
+    let buff ← natList (← j.getObjVal? "buff")
+    let r := ChunkFile.readChunk (fun _ _ => some ()) [] buff
+    pure (Json.mkObj [("accept", Json.bool r.isSome), ("declared", Json.num (ChunkFile.declared buff))])
+  | "split.store" =>
+    -- pieces: list of lists of [contig, pos, tag]; the store's record order (tags)
+    let pieces ← (← reqArr j "pieces").toList.mapM fun pj => do
+      (← pj.getArr?).toList.mapM fun r => do
+        let l ← natList r
+        pure (⟨l.getD 0 0, l.getD 1 0, l.getD 2 0⟩ : Split.Rec)
+    pure (Json.mkObj [("tags", natsJson ((Split.storeRecords pieces).map (·.tag)))])
   | "dmg.read" =>
     let parts ← (← reqArr j "parts").toList.mapM natList
     let a ← reqNat j "a"; let b ← reqNat j "b"
